@@ -217,15 +217,26 @@ func cloudCase(t *rapid.T, family [][]*gostatsd.Metric, perm []int, wantPlain mo
 	defer func() { cancel(); <-done }()
 
 	// per source: lookup outcome
+	// per source: found / not found, already cached (fast path) or looked up (parked); two addresses may belong to one
+	// instance, so that series differing only in their sender address coincide after enrichment
 	outcome := map[gostatsd.Source]*gostatsd.Instance{}
+	cached := map[gostatsd.Source]bool{}
 	for _, s := range gen.Sources {
 		if s == "" {
 			continue
 		}
 		if rapid.Bool().Draw(t, "found-"+s) {
-			outcome[gostatsd.Source(s)] = &gostatsd.Instance{ID: gostatsd.Source("id-" + s), Tags: gostatsd.Tags{"inst:" + s}}
+			id := s
+			if rapid.Bool().Draw(t, "shared-instance-"+s) {
+				id = "shared"
+			}
+			outcome[gostatsd.Source(s)] = &gostatsd.Instance{ID: gostatsd.Source("id-" + id), Tags: gostatsd.Tags{"inst:" + id}}
 		} else {
 			outcome[gostatsd.Source(s)] = nil
+		}
+		if rapid.Bool().Draw(t, "cached-"+s) {
+			cached[gostatsd.Source(s)] = true
+			ci.Set(gostatsd.Source(s), outcome[gostatsd.Source(s)])
 		}
 	}
 	want := model.Agg{}
@@ -236,7 +247,11 @@ func cloudCase(t *rapid.T, family [][]*gostatsd.Metric, perm []int, wantPlain mo
 		for _, m := range family[p] {
 			c := gen.CopyMetric(m)
 			if c.Source != "" {
-				sources[c.Source] = struct{}{}
+				if cached[c.Source] {
+					hasImmediate = true
+				} else {
+					sources[c.Source] = struct{}{}
+				}
 				if in := outcome[c.Source]; in != nil {
 					c.Tags = append(c.Tags, in.Tags...)
 					c.Source = in.ID
